@@ -16,7 +16,7 @@ use std::collections::BTreeMap;
 use std::fmt::Write as _;
 use std::io::Write as _;
 
-use embassy_futures::select::{select, select4, Either};
+use embassy_futures::select::{select, select3, select4, Either, Either3};
 use embassy_time::{Duration, Timer};
 
 use rs_matter::crypto::test_only_crypto;
@@ -328,9 +328,10 @@ fn run_e2e(kind: &str, f: &[&str]) -> String {
     let sc = SecureChannel::new(&crypto, &());
     let sc_responder = Responder::new("b-sc", sc, &matter_b, 0);
     let echo_responder = Responder::new("b-echo", Echo, &matter_b, 0);
+    let a_echo_responder = Responder::new("a-echo", Echo, &matter_a, 0);
     let outcome = e2e::block_on(async {
         let b_app = async {
-            if kind == "Q" || kind == "Z" {
+            if kind == "Q" || kind == "Z" || kind == "V" {
                 echo_responder.run::<4>().await
             } else {
                 sc_responder.run::<4>().await
@@ -343,6 +344,34 @@ fn run_e2e(kind: &str, f: &[&str]) -> String {
             net.pump(),
         )
         .coalesce();
+        // kind V: node A answers requests too, and B sends it one while A's own message is pending
+        let a_app = async {
+            if kind == "V" {
+                a_echo_responder.run::<4>().await
+            } else {
+                core::future::pending::<Result<(), Error>>().await
+            }
+        };
+        let b_flow = async {
+            if kind != "V" {
+                return core::future::pending::<Result<(), Error>>().await;
+            }
+            let at: u64 = field(f, "bat").parse().unwrap_or(30);
+            Timer::after(Duration::from_millis(at)).await;
+            let mut ex = Exchange::initiate(&matter_b, &crypto, NonZeroU8::new(1).unwrap(), A_NODE).await?;
+            ex.send(MessageMeta::new(PROTO, 1, true), &[7u8, 7, 7]).await?;
+            let rx = ex.recv().await?;
+            drop(rx);
+            ex.acknowledge().await?;
+            core::future::pending::<Result<(), Error>>().await
+        };
+        let nodes = async {
+            match select3(core::pin::pin!(nodes), core::pin::pin!(a_app), core::pin::pin!(b_flow)).await {
+                Either3::First(r) => r,
+                Either3::Second(r) => r,
+                Either3::Third(r) => r,
+            }
+        };
 
         let flow = async {
             let r: Result<(), Error> = match kind {
@@ -429,7 +458,7 @@ fn run_line(line: &str, out: &mut String) {
         "M" => writeln!(out, "M {} {}", f[1], run_n(f[2].parse().unwrap(), f[3].parse().unwrap(), f.get(5).copied().unwrap_or(""), Some(f[4] == "c"))).unwrap(),
         "A" => writeln!(out, "A {} {}", f[1], run_a(f[2].parse().unwrap(), f.get(3).copied().unwrap_or(""))).unwrap(),
         "X" => writeln!(out, "X {} {}", f[1], run_x(f[2].parse().unwrap(), f.get(3).copied().unwrap_or(""))).unwrap(),
-        "P" | "C" | "Q" | "Z" => writeln!(out, "{} {} {}", f[0], f[1], run_e2e(f[0], &f[2..])).unwrap(),
+        "P" | "C" | "Q" | "Z" | "V" => writeln!(out, "{} {} {}", f[0], f[1], run_e2e(f[0], &f[2..])).unwrap(),
         _ => {}
     }
 }
@@ -636,6 +665,11 @@ fn generate(tier: &str, seed: u64) -> Vec<String> {
         cases.push(format!("Q {} n=3 ab={} ba={}", nid(), ab, ba));
     }
     // an abandoned reliable send followed by another message on the same exchange
+    // another exchange of the node puts a message with a piggy-backed acknowledgement through the
+    // single TX buffer between the (lost) first transmission of a message and its retransmission
+    for (bat, ab) in [(20u32, "x"), (40, "x"), (60, "x"), (30, "x.d.x"), (30, "x.x")] {
+        cases.push(format!("V {} n=1 bat={} ab={} ba=", nid(), bat, ab));
+    }
     for (abandon, ab, ba) in [(30u32, "x.x.x.x.x.x.x", ""), (30, "x.d", "x.x"), (120, "x.x.x.x.x.x.x", ""), (10, "d", "x.x.x"), (30, "x.x", "")] {
         for n in [1u32, 2] {
             cases.push(format!("Z {} n={} abandon={} ab={} ba={}", nid(), n, abandon, ab, ba));
